@@ -53,7 +53,11 @@ def classify(c):
         m not in ("JC69", "GeneralJC69") or site.get("K", 1) > 1 or "pinv" in site or amb or rep or shuffled)
     key = (sorted(sorted(x) for x in topo.clades()), c["tree"]["kind"], _round(c["tree"]), _round(c["model"]), _round(site), c["tip"], c["cols"], c["seq_order"])
     labels = (c["family"], m, c["tree"]["kind"], site["kind"], c["tip"], "n=%d" % n, "amb" if amb else "noamb-data", "repeat" if rep else "norepeat")
-    tags = {"model": m, "tree": c["tree"]["kind"], "site": site["kind"], "tip": c["tip"], "family": c["family"]}
+    pos = [x for x in bl.values() if x > 0]
+    tiny = bool(pos) and min(pos) < 1e-14
+    tags = {"model": m, "tree": c["tree"]["kind"], "site": site["kind"], "tip": c["tip"], "family": c["family"], "tiny_branch": tiny}
+    if tiny:
+        labels = labels + ("tiny_branch",)
     return nontrivial, key, labels, tags
 
 
@@ -95,7 +99,10 @@ def audit_body(c):
 
 
 def pretags(c):
-    return {"model": c["model"]["name"], "tree": c["tree"]["kind"], "site": c["site"]["kind"], "tip": c["tip"], "family": c["family"]}
+    topo, names, dates, bl, h = phylo.tree_geometry(c)
+    pos = [x for x in bl.values() if x > 0]
+    return {"model": c["model"]["name"], "tree": c["tree"]["kind"], "site": c["site"]["kind"], "tip": c["tip"], "family": c["family"],
+            "tiny_branch": bool(pos) and min(pos) < 1e-14}
 
 
 def _topology_cases(tier):
@@ -203,7 +210,7 @@ def indices_body(c):
     if not sel:
         return res
     ref = phylo.reference(d, dic)
-    if v.size != 1 or not np.isfinite(v).all() or abs(float(v.reshape(-1)[0]) - ref) > 1e-9 * max(1.0, abs(ref)):
+    if v.size != 1 or not np.isfinite(v).all() or abs(float(v.reshape(-1)[0]) - ref) > 1e-9 * max(1.0, abs(ref)) + conditioning(d, dic):
         return res.fail("mismatch", {"value": v.tolist(), "reference": ref, "indices": c["indices"], "ncol": len(c["cols"])})
     return res
 
